@@ -56,7 +56,7 @@ def spell(v, style):
     raise ValueError(style)
 
 
-def decode(text, i, backslash):
+def decode(text, i, backslash, amb=None):
     """Reference codec: decode the literal starting at text[i] (a quote character).  Returns (value, end) or
     (None, reason).  backslash=True: \\' \\" \\\\ are escapes; any other backslash pair is 'ambiguous'."""
     q = text[i]
@@ -72,6 +72,14 @@ def decode(text, i, backslash):
                 return None, 'unterminated'
             nx = text[j + 1]
             if nx in ('\\', "'", '"'):
+                out.append(nx)
+                j += 2
+                continue
+            if amb == 'keep':
+                out.append(c + nx)
+                j += 2
+                continue
+            if amb == 'drop':
                 out.append(nx)
                 j += 2
                 continue
